@@ -123,13 +123,16 @@ func TestVerif_C11_Runtime(t *testing.T) {
 		}
 		opt := opts[i%len(opts)]
 		r.Case(i, map[string]interface{}{"option": opt})
-		port := c11rtFreePort()
-		if port == 0 {
-			r.Inconclusive("no free port")
-			continue
-		}
-		addr := fmt.Sprintf("127.0.0.1:%d", port)
-		mapper := &c11rtMapper{entered: make(chan string, 4), release: make(chan struct{})}
+		// The probed port is free only at the moment of probing; on a shared machine another
+		// process can take it before the server binds (and answer 200 to anything): the server
+		// counts as up only when OUR generation 0 answers, otherwise another port is tried.
+		var (
+			port   int
+			addr   string
+			cur    *HTTPServer
+			mapper *c11rtMapper
+			up     bool
+		)
 		mkSpec := func(k int) *supervisor.Spec {
 			s, err := supervisor.NewSpec(c11rtSpec(port, k, opt))
 			if err != nil {
@@ -137,22 +140,32 @@ func TestVerif_C11_Runtime(t *testing.T) {
 			}
 			return s
 		}
-		cur := &HTTPServer{}
-		cur.Init(mkSpec(0), mapper)
-		up := false
-		for n := 0; n < 600 && !up; n++ {
-			if g := c11rtGet(addr, "/fast", 5*time.Second); g.Status == 200 {
-				up = true
-			} else {
-				time.Sleep(10 * time.Millisecond)
+		for try := 0; try < 4 && !up; try++ {
+			if port = c11rtFreePort(); port == 0 {
+				continue
+			}
+			addr = fmt.Sprintf("127.0.0.1:%d", port)
+			mapper = &c11rtMapper{entered: make(chan string, 4), release: make(chan struct{})}
+			cur = &HTTPServer{}
+			cur.Init(mkSpec(0), mapper)
+			for n := 0; n < 300 && !up; n++ {
+				if g := c11rtGet(addr, "/fast", 5*time.Second); g.Status == 200 && g.Backend == "fast-0" {
+					up = true
+				} else {
+					time.Sleep(10 * time.Millisecond)
+				}
+			}
+			if !up {
+				r.Count("runtime_port_lost_to_another_process_or_server_slow", 1)
+				cur.Close()
 			}
 		}
 		if !up {
 			r.Inconclusive("server did not come up on " + addr)
-			cur.Close()
 			continue
 		}
 		gens := 2 + i%2
+		abandoned := false
 		for k := 1; k <= gens; k++ {
 			// park one request in generation k-1
 			slowDone := make(chan c11rtResp, 1)
@@ -160,8 +173,13 @@ func TestVerif_C11_Runtime(t *testing.T) {
 			select {
 			case <-mapper.entered:
 			case <-time.After(30 * time.Second):
+				// the request may still arrive later and would then be taken for the parked
+				// request of a later generation: give the whole case up
 				r.Inconclusive("parked request never reached its backend")
-				continue
+				abandoned = true
+			}
+			if abandoned {
+				break
 			}
 			next := &HTTPServer{}
 			next.Inherit(mkSpec(k), cur, mapper)
@@ -213,12 +231,24 @@ func TestVerif_C11_Runtime(t *testing.T) {
 				}
 			case <-time.After(60 * time.Second):
 				r.Inconclusive("parked request did not complete after release")
+				abandoned = true
+			}
+			if abandoned {
+				break
 			}
 			r.Cover(fmt.Sprintf("runtime/%s/old=%v/new=%v", opt, seen["old"], seen["new"]))
 			r.Count("runtime_updates_applied_with_request_in_flight", 1)
 		}
 		if i < 2 {
 			r.Sample(map[string]interface{}{"rig": "runtime", "option": opt, "spec_gen_1": c11rtSpec(port, 1, opt)})
+		}
+		if abandoned {
+			// let a late parked request go so that Close does not wait for it
+			mapper.mu.Lock()
+			rel := mapper.release
+			mapper.release = make(chan struct{})
+			mapper.mu.Unlock()
+			close(rel)
 		}
 		cur.Close()
 	}
